@@ -38,6 +38,6 @@ Deliverables, all written into the directory {wt}/OUT/ (create it):
 2. demo.py     — a small standalone Python program (run as: cd <tree> && PYTHONPATH=<tree> /venv/bin/python OUT/demo.py, or with the tree path as argv[1]) that exits 0 on the unchanged tree and exits non-zero (printing what went wrong) on the tree with your change. It should demonstrate the property violation concretely (e.g. by checking the emitted RzIL text for the specific wrong opcode/order/flag on the specific input, or by comparing results of two histories).
 3. meta.json   — {{"property": "{pid}", "summary": "...what the change does...", "needs_to_manifest": "...the specific input/sequence/condition...", "files_changed": [...], "suite_result": "...numbers you observed..."}}
 
-Before finishing, verify yourself: (a) the full test suite result with the change (131 passed), (b) demo.py fails with the change, (c) after `git -C {wt} stash` demo.py passes (then `git -C {wt} stash pop`; do not use /repo itself for this, other work may be going on there). Leave the worktree in place with the change applied (I will collect OUT/ and remove the worktree). Report briefly what you changed and the verification results."""
+Before finishing, verify yourself: (a) the full test suite result with the change (131 passed), (b) demo.py fails with the change, (c) on the unchanged tree demo.py passes: do NOT use `git stash` (the stash is shared between all worktrees of /repo and other agents work in parallel); instead `git -C {wt} diff > {wt}/OUT/patch.diff; git -C {wt} apply -R {wt}/OUT/patch.diff; <run demo.py>; git -C {wt} apply {wt}/OUT/patch.diff` (do not use /repo itself for this, other work may be going on there). Leave the worktree in place with the change applied (I will collect OUT/ and remove the worktree). Report briefly what you changed and the verification results."""
 if __name__=="__main__":
     print(prompt(sys.argv[1], sys.argv[2] if len(sys.argv)>2 else ""))
